@@ -208,4 +208,11 @@ def r3(F, R):
     R.floor(5)
 
 
-RULES = [("R1", r1, None), ("R2", r2, None), ("R3", r3, None)]
+def r4(F, R):
+    """"... it becomes the *corresponding* Failed event": the deferred failure event is the failed event of the kind of step / hook
+    that failed (C02.R3's rule on emit_failed_events and the event constructors it uses)."""
+    from . import c02
+    c02.r3(F, R)
+
+
+RULES = [("R1", r1, None), ("R2", r2, None), ("R3", r3, None), ("R4", r4, None)]
